@@ -449,6 +449,43 @@ def rule_ellipsoid(F, R):
     R.check(len(dn) == 2 and "converged" in flags, "R-C03-5", "ellipsoid done flags", f.loc(), "done() receives that flag", "done() receives %s" % flags)
 
 
+def rule_ellipsoid_update(F, R):
+    """R-C03-9: the deep-cut ellipsoid update (centre and shape) equals its definition, in floating-point arithmetic"""
+    f = F.one("nano::solver_ellipsoid_t::do_minimize", "src/solver/ellipsoid.cpp")
+    ups = {}
+    for x in f.nodes():
+        a = assignment(x)
+        if a and a[2] == "=" and pp(a[0]) in ("xv.noalias()", "Hm.noalias()", "xv", "Hm"):
+            ups[pp(a[0]).split(".")[0]] = (a[1], x)
+    if set(ups) != {"xv", "Hm"}:
+        raise AnalysisBroken("ellipsoid: the assignments updating the centre (xv) and the shape (Hm) were not found")
+    gHg = [v for v in f.nodes() if v["k"] == "var" and v["n"] == "gHg" and v.get("c")]
+    alpha = [v for v in f.nodes() if v["k"] == "var" and v["n"] == "alpha" and v.get("c")]
+    if len(gHg) != 1 or len(alpha) != 1:
+        raise AnalysisBroken("ellipsoid: locals gHg / alpha not found")
+    N_, AL, GHG, H_, G_, X_, FCUR, FBEST = (kalg.sym(n) for n in ("n", "alpha", "gHg", "H", "g", "x", "f", "fbest"))
+    atoms = {"function.size()": N_, "state.fx()": FBEST, "Hm": H_, "gv": G_, "xv": X_, "f": FCUR}
+    subst = {gHg[0]["d"]: GHG, alpha[0]["d"]: AL}
+    try:
+        cv = kalg.Conv(f, atoms=atoms, subst=subst, scalar=True)
+        newx = cv.conv(ups["xv"][0])
+        newH = cv.conv(ups["Hm"][0])
+        a_def = kalg.Conv(f, atoms=atoms, subst={gHg[0]["d"]: GHG}, scalar=True).conv(alpha[0]["c"][0])
+    except kalg.OutOfFragment as e:
+        R.incomplete("R-C03-9", "ellipsoid update", f.loc(ups["xv"][1]), "cannot evaluate: %s" % e)
+        return
+    tau = (1 + N_ * AL) / (N_ + 1)
+    wantx = X_ - tau * (H_ * G_) / sp.sqrt(GHG)
+    wantH = N_ ** 2 / (N_ ** 2 - 1) * (1 - AL ** 2) * (H_ - 2 * tau / (1 + AL) * (H_ * G_ * G_ * H_) / GHG)
+    z1, w1 = kalg.is_zero(newx - wantx, R.seed)
+    z2, w2 = kalg.is_zero(newH - wantH, R.seed)
+    z3, w3 = kalg.is_zero(a_def - (FCUR - FBEST) / sp.sqrt(GHG), R.seed)
+    R.check(bool(z1), "R-C03-9", "ellipsoid centre", f.loc(ups["xv"][1]), "x+ = x - (1 + n a)/(n + 1) H g / sqrt(g'Hg)", "centre update is %s, the deep-cut definition is %s %s" % (newx, wantx, w1))
+    R.check(bool(z2), "R-C03-9", "ellipsoid shape", f.loc(ups["Hm"][1]), "H+ = n^2/(n^2-1) (1 - a^2) (H - 2(1 + n a)/((n+1)(1+a)) H g g' H / g'Hg)",
+            "shape update is %s, the deep-cut definition is %s %s: the new ellipsoid need not contain the half of the old one that holds the minimiser, yet sqrt(g'Hg) < eps is still reported as converged" % (newH, wantH, w2))
+    R.check(bool(z3), "R-C03-9", "ellipsoid cut depth", f.loc(alpha[0]), "a = (f(x) - f_best) / sqrt(g'Hg)", "cut depth is %s %s" % (a_def, w3))
+
+
 def run(ctx):
     R = ctx.report
     F = ctx.facts(TUS)
@@ -460,3 +497,4 @@ def run(ctx):
     rule_partial_sort(F, R)
     rule_capacity(F, R)
     rule_ellipsoid(F, R)
+    rule_ellipsoid_update(F, R)
